@@ -11,6 +11,7 @@ import (
 	"math/rand"
 	"os"
 	"path/filepath"
+	"runtime"
 	"sort"
 	"strconv"
 	"strings"
@@ -374,4 +375,18 @@ func (r *Run) Parallel(n, workers int, fn func(i int)) {
 		}(i)
 	}
 	wg.Wait()
+}
+
+// GoroutineDump returns the stacks of all goroutines that have a frame matching substr
+// (all goroutines if substr is empty). Used as witness for stuck requests.
+func GoroutineDump(substr string) []string {
+	buf := make([]byte, 1<<22)
+	n := runtime.Stack(buf, true)
+	var out []string
+	for _, g := range strings.Split(string(buf[:n]), "\n\n") {
+		if substr == "" || strings.Contains(g, substr) {
+			out = append(out, g)
+		}
+	}
+	return out
 }
